@@ -189,6 +189,33 @@ Arguments g_status {P}. Arguments g_src {P}. Arguments g_base {P}. Arguments g_s
 Arguments g_err_src {P}. Arguments g_err_base {P}. Arguments g_tail {P}.
 Arguments Build_source {P}. Arguments s_addr {P}. Arguments s_res {P}.
 
+(* ================= command line -> the two source lists (cli.go parseFlags) =================
+   The positional arguments ARE the source list, in order and with repetitions (cli.go:139
+   `Sources: args`); the first one is taken off only when there are at least two and the object tool
+   opens it as a binary (oracle [first_is_binary], cli.go:97-105).  -base / -diff_base values are
+   kept in order, empty values dropped (dropEmpty), giving both is an error (addBaseProfiles). *)
+Section Cli.
+  Variable A : Type.
+  Variable is_empty : A -> bool.
+  Inductive cli_res := CliErr | CliOk (sources bases : list A) (diff : bool).
+  Definition drop_empty (l : list A) : list A := filter (fun a => negb (is_empty a)) l.
+  Definition cli_source_lists (first_is_binary : bool) (args base diff_base : list A) : cli_res :=
+    match args with
+    | [] => CliErr                                     (* "no profile source specified" *)
+    | _ :: rest =>
+        let srcs := match rest with
+                    | [] => args
+                    | _ => if first_is_binary then rest else args
+                    end in
+        match drop_empty base, drop_empty diff_base with
+        | _ :: _, _ :: _ => CliErr                     (* "-base and -diff_base flags cannot both be specified" *)
+        | b, [] => CliOk srcs b false
+        | _, d => CliOk srcs d true
+        end
+    end.
+End Cli.
+Arguments CliErr {A}. Arguments CliOk {A}.
+
 (* ================= the HTTP transport shared by all fetches of one run =================
    internal/transport/transport.go: ONE transport object serves every HTTP fetch of a pprof run
    (sources, bases, symbolz).  RoundTrip loads the -tls_cert/-tls_key/-tls_ca files once (initOnce:
